@@ -8,6 +8,7 @@ UNIT_MODES = {
     'addsub': ['dbg', 'rel'],
     'powlog': ['dbg', 'rel'],
     'div': ['dbg', 'rel'],
+    'bits': ['dbg', 'rel'],
 }
 
 # property -> verus units owned by the property (dependencies are added automatically) and the
@@ -17,6 +18,7 @@ PROPS = {
     'C02': dict(units=['mul'], title='multiplication exact'),
     'C03': dict(units=['div', 'sdiv'], title='division and remainder'),
     'C05': dict(units=['shift_bits', 'shift_val', 'shift_rot', 'shift_ops'], title='shifts and rotations'),
+    'C06': dict(units=['bits'], title='bitwise logic, counts, bit manipulation'),
     'C07': dict(units=['cmp', 'cmp2'], title='comparison, equality, hashing'),
     'C08': dict(units=['powlog'], title='powers and logarithms'),
     'C11': dict(units=['radixout'], title='radix output'),
